@@ -80,9 +80,11 @@ CLAIMS = {
         design="5/C06"),
     "C07": dict(
         text=("Props/C07.lean: min/max update+merge are homomorphisms over any split of the input incl. partitions that saw no non-NULL row (max_split, min_split, by induction), the result of max is an "
-              "element of the input dominating all others (max_is_maximum); SUM homomorphism is in Props/C12. Tie: one table with 1-2200 distinct group keys (hash tables resize, keys recur after the resize), "
+              "element of the input dominating all others (max_is_maximum); SUM homomorphism is in Props/C12; directory_never_full - the hash table directory (Core/Directory.lean: needs_resize at 70% load, resize to "
+              "max(2*cap, n+cap) rounded to a power of two) always keeps an empty slot for every history of batch sizes and new groups, so linear probing always ends and 'Hash table completely full' is unreachable; batch_cap_mono. "
+              "Tie: the real Directory (needs_resize, resize, probing) driven through a cfg hook on 400 (quick) / 20000 random batch histories must show exactly the model's capacities and occupancies; one table with 1-2200 distinct group keys (hash tables resize, keys recur after the resize), "
               "0-100% NULL keys, all-negative/all-positive/mixed values, aggregated with count/sum/min/max/bool_and/bool_or (+DISTINCT), GROUP BY, ROLLUP/CUBE, SELECT DISTINCT, UNION under 1 and 2-16 partitions."),
-        note=TB + "FILTER is a known finding (ignored by the binder); float aggregates are not modelled; the hash-aggregate table itself is covered by the differential runs only.",
+        note=TB + "FILTER is a known finding (ignored by the binder); float aggregates are not modelled; of the hash-aggregate table only the directory's capacity bookkeeping is modelled (group matching, row storage and merging of partition tables are covered by the differential runs only).",
         technique="Lean proof (aggregate states are homomorphisms over input splits) + aggregation differential against Sem",
         design="5/C07"),
     "C09": dict(
